@@ -9,6 +9,11 @@
      c_deep   the input holds a value nested more than 150 levels deep (brackets/braces in a text, lists in an object).
      c_asked  the input of THIS call holds a request that legitimately ends in exit status 0 (help / version /
               print_config); calls made earlier on the same parser (the case's history) do not count.
+     c_subcmd the parser has sub-commands (the AttributeError sites of finding 20, a non-mapping under a sub-command key,
+              count as that finding only then).
+     c_nonmap the call is parse_object and the object handed to it is not a dict / Namespace.
+   The AttributeError site of finding 26 (a non-mapping config object) counts as that finding only for such calls: the same
+   site reached because some inner code let a non-mapping through is inside the guard.
    The RecursionError sites of finding 18 (deep nesting) count as that finding only for inputs that ARE deeply nested:
    the same sites reached by a shallow input (e.g. a cycle check that recurses on its own) are inside the guard.
    Model agreement (the tie): SOME candidate site is a member of the escape set the analysis computes for that entry
@@ -21,7 +26,7 @@
 From JV Require Import Lib.Base Model.C03ExnFlow Spec.C03ChannelSpec Gen.C03ExnIR Model.C03Instance.
 Open Scope N_scope.
 
-Record case := { c_x : bool; c_entry : N; c_obs : observation; c_cls : option N; c_sites : list N; c_selfref : bool; c_deep : bool; c_asked : bool }.
+Record case := { c_x : bool; c_entry : N; c_obs : observation; c_cls : option N; c_sites : list N; c_selfref : bool; c_deep : bool; c_asked : bool; c_nonmap : bool; c_subcmd : bool }.
 
 Definition norm_obs (o : observation) : observation :=
   match o with
@@ -57,7 +62,10 @@ Definition judge1 (c : case) : verdict :=
       match find (fun i => mem i (escape_set x (c_entry c)) && N.eqb (site_class ir_prog i) cl) (c_sites c) with
       | Some i =>
           {| v_model := is_entry (c_entry c) && obs_eqb (obs_of_class cl) (norm_obs (c_obs c));
-             v_class := (let k := finding_class x i in if N.eqb k 18 && negb (c_deep c) then 0 else k);
+             v_class := (let k := finding_class x i in
+                         if N.eqb k 18 && negb (c_deep c) then 0
+                         else if N.eqb k 26 && negb (c_nonmap c) then 0
+                         else if N.eqb k 20 && negb (c_subcmd c) then 0 else k);
              v_spec := channel_ok_asked x (c_asked c) (c_obs c) |}
       | None =>
           {| v_model := false; v_class := 0; v_spec := channel_ok_asked x (c_asked c) (c_obs c) |}
